@@ -460,6 +460,10 @@ pub fn on_drop(wd: &World, n: &Node) {
         wd.drop_phase_id.set(wd.drop_phase_id.get() + 1);
     }
     let reach = wd.m.borrow().reach();
+    let direct = {
+        let cbs = wd.stack.borrow().iter().filter(|f| matches!(f, Frame::Cb(_, _))).count();
+        cbs == 1 && !wd.m.borrow().objs.iter().any(|o| o.glue_pending)
+    };
     {
         let mut m = wd.m.borrow_mut();
         let (hmin, hmax) = m.holders(id);
@@ -475,7 +479,11 @@ pub fn on_drop(wd: &World, n: &Node) {
                 if o.armed && !wd.degraded.get() {
                     wd.err("C05", "drop_without_finalize", format!("dropped_unfinalized:{}", if by_collector { "collector" } else { "rc" }), format!("#{} was dropped without having been finalized although finalization was due", id));
                 }
-                if o.upgraded_in_drop_phase != 0 && o.upgraded_in_drop_phase == wd.drop_phase_id.get() && by_collector {
+                // only destructors the collector runs itself (members of its garbage list): no other callback frame
+                // between the collection and this destructor, and no drop glue of another value in progress (an object
+                // released by the glue of a member, or by a callback, dies by plain reference counting: handing out a Cc
+                // to it earlier in the phase, and getting it back, was legitimate)
+                if o.upgraded_in_drop_phase != 0 && o.upgraded_in_drop_phase == wd.drop_phase_id.get() && by_collector && direct {
                     wd.err("C08", "upgrade_some_dying", "upgraded_then_dropped_same_phase".into(), format!("Weak::upgrade handed out #{} during the drop phase that then dropped it", id));
                 }
             }
